@@ -294,20 +294,21 @@ Lemma veq_with_trans : forall kf arr a b c,
   veq_with kf arr a b = true -> veq_with kf arr b c = true -> veq_with kf arr a c = true.
 Proof.
   intros kf arr a. induction a as [t p | e | e vs IH] using value_ind'; intros b c H1 H2.
-  - destruct b as [t' p' | e' l']; [|discriminate H1]. destruct c as [t'' p'' | e'' l'']; [|cbn in H2; destruct (vtag_eqb t' t''); [destruct (kf t')|]; discriminate H2].
+  - destruct b as [t' p' | e' l']; [|discriminate H1]. destruct c as [t'' p'' | e'' l'']; [|discriminate H2].
     cbn in *. destruct (vtag_eqb t t') eqn:E1; [|discriminate H1]. apply vtag_eqb_eq in E1. subst t'.
     destruct (vtag_eqb t t'') eqn:E2; [|discriminate H2]. destruct (kf t); [|discriminate H1].
     eapply opt_eqb_trans; [|exact H1|exact H2]. intros x y z. apply payload_eq_trans.
   - destruct b as [t' p' | e' [l'|]]; try discriminate H1; [cbn in H1; rewrite andb_false_r in H1; discriminate H1|].
     destruct c as [t'' p'' | e'' [l''|]]; try discriminate H2; [cbn in H2; rewrite andb_false_r in H2; discriminate H2|].
     cbn in *. rewrite !andb_true_r in *. apply andb_prop in H1. apply andb_prop in H2. destruct H1 as [A1 E1]. destruct H2 as [_ E2].
-    apply vtag_eqb_eq in E1. apply vtag_eqb_eq in E2. subst. rewrite A1, vtag_eqb_refl. reflexivity.
+    apply vtag_eqb_eq in E1. apply vtag_eqb_eq in E2. subst e' e''. rewrite A1, vtag_eqb_refl. reflexivity.
   - destruct b as [t' p' | e' [l'|]]; try discriminate H1; [|cbn in H1; rewrite andb_false_r in H1; discriminate H1].
     destruct c as [t'' p'' | e'' [l''|]]; try discriminate H2; [|cbn in H2; rewrite andb_false_r in H2; discriminate H2].
     rewrite veq_with_array in *. apply andb_prop in H1. apply andb_prop in H2.
     destruct H1 as [H1 L1]. destruct H2 as [H2 L2]. apply andb_prop in H1. apply andb_prop in H2.
-    destruct H1 as [A1 E1]. destruct H2 as [_ E2]. apply vtag_eqb_eq in E1. apply vtag_eqb_eq in E2. subst.
-    rewrite A1, vtag_eqb_refl. cbn. eapply list_eqb_trans; [|exact L1|exact L2].
+    destruct H1 as [A1 E1]. destruct H2 as [_ E2]. apply vtag_eqb_eq in E1. apply vtag_eqb_eq in E2. subst e' e''.
+    apply andb_true_intro. split; [apply andb_true_intro; split; [exact A1|apply vtag_eqb_refl]|].
+    eapply list_eqb_trans; [|exact L1|exact L2].
     intros x y z Hx. rewrite Forall_forall in IH. apply IH. exact Hx.
 Qed.
 
@@ -437,8 +438,7 @@ Proof.
     cbn [wf_value] in Wa, Wb. eapply payload_hash_coherent; eassumption.
   - destruct b as [t' p' | e' [l'|]]; try discriminate E.
     + unfold veq in E. cbn in E. rewrite andb_false_r in E. discriminate E.
-    + unfold veq in E. cbn in E. rewrite andb_true_r in E. apply andb_prop in E. destruct E as [_ E].
-      apply vtag_eqb_eq in E. subst. reflexivity.
+    + unfold veq in E. cbn in E. rewrite andb_true_r in E. apply vtag_eqb_eq in E. subst. reflexivity.
   - destruct b as [t' p' | e' [l'|]]; try discriminate E.
     + unfold veq in E. rewrite veq_with_array in E. apply andb_prop in E. destruct E as [E L].
       apply andb_prop in E. destruct E as [_ E]. apply vtag_eqb_eq in E. subst e'.
